@@ -451,6 +451,92 @@ pub fn run_split_credit(max_message_size: u64, sizes: &[usize]) -> Result<(Vec<S
     })
 }
 
+/// A receiver takes credit back while a send that has already seen it waits for room in the session's
+/// queue: `queue` = capacity of the link-to-session queue = transfers per big delivery (max-message-size
+/// 100).  The receiver's flow (delivery-count 1, link-credit 1: exactly one more delivery) is in the pipe
+/// when delivery A fills the queue and delivery B starts waiting for room.  Returns the deliveries and
+/// transfer frames that arrive after that flow, and whether B's send completed.
+pub fn run_revoked_while_waiting(queue: usize) -> Result<(u32, u32, bool), String> {
+    use crate::peer::*;
+    use fe2o3_amqp::{Connection, Sender, Session};
+    use fe2o3_amqp_types::definitions::{Handle, ReceiverSettleMode, Role, SenderSettleMode};
+    use fe2o3_amqp_types::messaging::{Data, Message};
+    use fe2o3_amqp_types::performatives::{Attach, Flow, Performative};
+    use serde_amqp::primitives::Binary;
+    const CUT: u64 = 100;
+    let rt = paused_runtime();
+    rt.block_on(async move {
+        let (cio, pio) = tokio::io::duplex(1 << 20);
+        let mut peer = Peer::new(pio);
+        let client = tokio::spawn(async move {
+            let mut conn = Connection::builder().container_id("c08-revoke").open_with_stream(cio).await.map_err(|e| format!("open: {:?}", e))?;
+            let session = Session::builder().buffer_size(queue).begin(&mut conn).await.map_err(|e| format!("begin: {:?}", e))?;
+            Ok::<_, String>((conn, session))
+        });
+        let e = |x: PeerError| format!("{:?}", x);
+        peer.accept_open(&PeerOpen::default()).await.map_err(e)?;
+        peer.accept_begin(0, 0, 2048, 2048).await.map_err(e)?;
+        let (_conn, mut session) = client.await.map_err(|e| format!("{:?}", e))??;
+        let attach = tokio::spawn(async move {
+            let s = Sender::builder().name("revoke").target("q").sender_settle_mode(SenderSettleMode::Settled).attach(&mut session).await.map_err(|e| format!("attach: {:?}", e))?;
+            Ok::<_, String>((s, session))
+        });
+        let a = match peer.recv_frame().await.map_err(e)? {
+            (_, Performative::Attach(a), _) => a,
+            _ => return Err("expected attach".into()),
+        };
+        let ours = Attach {
+            name: a.name.clone(),
+            handle: Handle(0),
+            role: Role::Receiver,
+            snd_settle_mode: a.snd_settle_mode.clone(),
+            rcv_settle_mode: ReceiverSettleMode::First,
+            source: a.source.clone(),
+            target: a.target.clone(),
+            unsettled: None,
+            incomplete_unsettled: false,
+            initial_delivery_count: None,
+            max_message_size: Some(CUT),
+            offered_capabilities: None,
+            desired_capabilities: None,
+            properties: None,
+        };
+        peer.send(0, Performative::Attach(ours), &[]).await.map_err(e)?;
+        let (mut sender, _session) = attach.await.map_err(|e| format!("{:?}", e))??;
+        let flow = |seen: u32, dc: u32, credit: u32| Flow { next_incoming_id: Some(seen), incoming_window: 2048, next_outgoing_id: 0, outgoing_window: 2048, handle: Some(Handle(0)), delivery_count: Some(dc), link_credit: Some(credit), available: None, drain: false, echo: false, properties: None };
+        // three credits; one small delivery
+        peer.send(0, Performative::Flow(flow(0, 0, 3)), &[]).await.map_err(e)?;
+        sender.send("m0").await.map_err(|e| format!("send m0: {:?}", e))?;
+        match peer.recv_frame().await.map_err(e)? {
+            (_, Performative::Transfer(_), _) => {}
+            (_, other, _) => return Err(format!("expected a transfer, got {}", summarize(&other, 0))),
+        }
+        tokio::time::sleep(Duration::from_millis(100)).await;
+        // the receiver has seen m0 and lowers its credit to one: exactly one more delivery
+        peer.send(0, Performative::Flow(flow(1, 1, 1)), &[]).await.map_err(e)?;
+        let big = || -> Message<Data> { Message::builder().data(Binary::from(vec![0x5a; queue * CUT as usize - 50 - 8])).build() };
+        // A takes a credit and fills the queue; B sees the credit the sender still believes to have and waits for room
+        let _a = sender.send_batchable(big()).await.map_err(|e| format!("send A: {:?}", e))?;
+        let b = tokio::time::timeout(Duration::from_secs(2), sender.send_batchable(big())).await;
+        let mut frames = 0u32;
+        let mut deliveries = 0u32;
+        peer.recv_timeout = Duration::from_millis(500);
+        loop {
+            match peer.recv_frame().await {
+                Ok((_, Performative::Transfer(t), _)) => {
+                    frames += 1;
+                    if !t.more {
+                        deliveries += 1;
+                    }
+                }
+                Ok(_) => {}
+                Err(_) => break,
+            }
+        }
+        Ok((deliveries, frames, b.is_ok()))
+    })
+}
+
 pub fn main(opts: &Opts) {
     let mut report = Report::new(
         "C08",
@@ -582,6 +668,24 @@ pub fn main(opts: &Opts) {
                 }
             }
             Err(e) => report.finding(Finding { kind: "violation", key: "split-credit-scenario-failed".into(), description: e, replay }),
+        }
+    }
+
+    // credit taken back while a send waits for room
+    for &q in &[2usize, 3, 8, 64] {
+        report.evaluations += 1;
+        report.count("revoked_while_waiting_cases");
+        report.nontrivial_case(fnv(&format!("revoked-while-waiting-{}", q)));
+        let replay = json!({"property": "C08", "module": "credit", "revoked_while_waiting": {"queue": q}});
+        match run_revoked_while_waiting(q) {
+            Ok((deliveries, frames, b_done)) => {
+                if deliveries > 1 || b_done {
+                    report.finding(Finding { kind: "violation", key: "credit-taken-back-while-waiting-for-room-is-used".into(), description: format!("link-to-session queue of {}: the receiver's latest flow (delivery-count 1, link-credit 1) allows one more delivery; {} deliveries in {} transfers arrived after it (second send completed: {})", q, deliveries, frames, b_done), replay });
+                } else if deliveries < 1 {
+                    report.finding(Finding { kind: "violation", key: "send-waits-despite-credit".into(), description: format!("link-to-session queue of {}: the delivery covered by the receiver's latest flow did not arrive ({} transfers)", q, frames), replay });
+                }
+            }
+            Err(e) => report.finding(Finding { kind: "violation", key: "revoked-while-waiting-scenario-failed".into(), description: e, replay }),
         }
     }
 
